@@ -49,38 +49,45 @@ impl LanguageServer {
         let mut framed_read = FramedRead::new(stdin, io::LSCodec);
 
         // every phase reports whether the client sent `exit` before `shutdown`
-        let mut exit_requested = phases::initialization(&mut self, &mut framed_read, iotx.clone())
-            .await
-            .wrap_err("Unexpected error occured during initialization")?;
-
         let mut doctx = None;
-        if !exit_requested {
-            // spawn thread which handles document synchronization
-            let (tx, docrx) = mpsc::channel(32);
-            handles.push(tokio::spawn(document::broker(
-                docrx,
-                iotx.clone(),
-                self.client_details.diagnostics,
-            )));
+        let result: Result<bool> = async {
+            let mut exit_requested =
+                phases::initialization(&mut self, &mut framed_read, iotx.clone())
+                    .await
+                    .wrap_err("Unexpected error occured during initialization")?;
 
-            exit_requested = phases::main(&mut framed_read, iotx.clone(), tx.clone())
-                .await
-                .wrap_err("Unexpected error occured during main phase")?;
-            doctx = Some(tx);
+            if !exit_requested {
+                // spawn thread which handles document synchronization
+                let (tx, docrx) = mpsc::channel(32);
+                handles.push(tokio::spawn(document::broker(
+                    docrx,
+                    iotx.clone(),
+                    self.client_details.diagnostics,
+                )));
+
+                exit_requested = phases::main(&mut framed_read, iotx.clone(), tx.clone())
+                    .await
+                    .wrap_err("Unexpected error occured during main phase")?;
+                doctx = Some(tx);
+            }
+
+            if !exit_requested {
+                phases::shutdown(&mut framed_read, iotx.clone())
+                    .await
+                    .wrap_err("Unexpected error occured during shutdown")?;
+            }
+            Ok(exit_requested)
         }
+        .await;
 
-        if !exit_requested {
-            phases::shutdown(&mut framed_read, iotx.clone())
-                .await
-                .wrap_err("Unexpected error occured during shutdown")?;
-        }
-
-        // let the other tasks finish, so that every response is written out
+        // let the other tasks finish, so that every response is written out,
+        // also when a phase failed
         drop(iotx);
         drop(doctx);
         for handle in handles {
             handle.await.expect("Cannot await handle");
         }
+        let exit_requested = result?;
         if exit_requested {
             std::process::exit(1) // ungraceful exit
         }
